@@ -63,6 +63,7 @@ def main():
                 "K": "Kani function contracts / full-domain harnesses in place",
                 "K+PY+V": "Kani function contracts in place + Verus on woven real functions",
                 "K+V": "Kani function contracts in place + Verus on woven real functions",
+                "K+KW+PY+V": "Kani function contracts in place + Verus and standalone Kani on functions woven from the real source",
                 "V": "Verus on woven real functions"}.get("+".join(engines), "Kani + Verus")
                 + (" (bounded Kani harnesses only: stand-in, not a proof)" if P["level"] == "other" else ""),
         })
@@ -81,6 +82,8 @@ def main():
              "kind_free_text": "Kani 0.68 / CBMC 6.11 function contracts (proof_for_contract, stub_verified) and full-domain or bounded harnesses on the real crate, in place"},
             {"name": "V", "path": "lib/verus_engine.py", "serves_properties": sorted({u["prop"] for u in UNITS if u["engine"] == "V"}),
              "kind_free_text": "Verus 0.2026.09.13 on functions woven mechanically from the current source on every run (verus/*.py weave specs; substitutions declared and counted)"},
+            {"name": "KW", "path": "lib/kaniw_engine.py", "serves_properties": sorted({u["prop"] for u in UNITS if u["engine"] == "KW"}),
+             "kind_free_text": "standalone Kani on integer-only loops woven mechanically from the current source (verus/gf_mul.py: portable clmul + GF reduction loop); same weave rules as engine V"},
             {"name": "PY", "path": "lib/crosschecks.py", "serves_properties": ["C08"],
              "kind_free_text": "cross-check of trusted mathematical facts (primality / GF(2) irreducibility) about literals read from the source; never counted as discharged"},
         ],
